@@ -8,13 +8,18 @@ namespace Rfsm.Reader
 open Rfsm.Descriptor (Str)
 
 /-- decidable condition under which every leaf is read as one entry: `<log>` has `expr`,
-`<cancel>` has exactly one of `sendid` / `sendidexpr`, `<assign>` not both `expr` and child text;
+`<cancel>` has exactly one of `sendid` / `sendidexpr`, `<assign>` not both `expr` and child text,
+child text of `<script>` / `<assign>` is written without `&` and `<` (`plainText`: the SAX span is
+the text itself; for escaped text see `resolve_escape`);
 `<send>` is not covered by this corollary (its leaf lemma is missing) -/
 def supported : Content → Bool
   | .raise _ => true
-  | .assign _ e t => (e.isNone || t.isNone) && !(e.isSome && t.isSome)
+  | .assign _ e t => (e.isNone || t.isNone) && !(e.isSome && t.isSome) &&
+      (match t with
+       | some t => plainText t
+       | none => true)
   | .log _ e => e.isSome
-  | .script _ => true
+  | .script t => plainText t
   | .send _ => false
   | .cancel i e => (i.isSome && e.isNone) || (i.isNone && e.isSome)
   | .ite _ b t => supportedB b && supportedT t
@@ -38,14 +43,14 @@ theorem okC_of_supported : (c : Content) → supported c = true → OkC c
     | none => exact leaf_assign_expr l e
     | some t =>
       cases e with
-      | none => exact leaf_assign_text l t
+      | none => exact leaf_assign_text l t (by simpa [supported] using h)
       | some e => simp [supported] at h
   | .log l e, h => by
     simp only [OkC]
     cases e with
     | none => simp [supported] at h
     | some e => exact leaf_log l e
-  | .script t, _ => by simpa [OkC] using leaf_script t
+  | .script t, h => by simpa [OkC] using leaf_script t (by simpa [supported] using h)
   | .send s, h => by simp [supported] at h
   | .cancel i e, h => by
     simp only [OkC]
@@ -124,5 +129,53 @@ theorem le_maxKey_aux {g : Regions} {k : Nat} (h : (rget g k).isSome) : k ≤ ma
     split at h
     · omega
     · have := ih h; omega
+
+
+/-! ### lexical respellings of the raw-text leaves (repaired in round 2) -/
+
+theorem localName_prefix (p n : Str) (hp : p.all (· != 58) = true) : localName (p ++ 58 :: n) = n := by
+  unfold localName
+  have : (p ++ 58 :: n).dropWhile (· ≠ 58) = 58 :: n := by
+    induction p with
+    | nil => simp [List.dropWhile]
+    | cons c cs ih =>
+      simp only [List.all_cons, Bool.and_eq_true, bne_iff_ne, ne_eq] at hp
+      have := ih hp.2
+      simpa [List.dropWhile, hp.1] using this
+  rw [this]
+
+/-- a namespace prefix on `<script>` with child text does not change what is read -/
+theorem prefix_script (p t : Str) (hp : p.all (· != 58) = true) (hpl : plainText t = true)
+    (σ : RS) (es : List Exec) (hR : Ready σ es) :
+    run (addPrefix p (saxC (.script t))) σ = run (saxC (.script t)) σ := by
+  have hl : localName t_script = t_script := by decide
+  have ht : tagOf t_script = .script := by decide
+  have hlp := localName_prefix p t_script hp
+  have hres := resolve_plain t hpl
+  obtain ⟨hp1, hp2⟩ := script_parent hR.tag
+  by_cases he : t = []
+  · subst he
+    simp [saxC, rawSax, addPrefix, run, step, hR.raw, hl, ht, hlp, isRawTag, rawElement, rawPre, startScript, verifyParent, RS.parentTag,
+      RS.push, getAttr, addExec, hR.cur0, hR.reg, bind, Except.bind, endElement, RS.pop, RS.upd, hp1, hp2, trim_nil]
+  · have hne : t.isEmpty = false := by cases t <;> simp_all
+    simp [saxC, rawSax, addPrefix, hne, run, step, hR.raw, hl, ht, hlp, hres, isRawTag, rawElement, rawPre, startScript, verifyParent,
+        RS.parentTag, RS.push, getAttr, addExec, hR.cur0, hR.reg, bind, Except.bind, RS.pop, RS.upd, hp1, hp2]
+
+/-- `<assign location expr?></assign>` is read like `<assign location expr?/>` -/
+theorem pair_assign (l : Str) (e : Option Str) (σ : RS) (es : List Exec) (hR : Ready σ es) :
+    run (pairForm (saxC (.assign l e none))) σ = run (saxC (.assign l e none)) σ := by
+  have hl : localName t_assign = t_assign := by decide
+  have ht : tagOf t_assign = .assign := by decide
+  have hk : ¬ a_location = a_expr := by decide
+  have hp := assign_parent hR.tag
+  cases e with
+  | none =>
+    simp [saxC, rawSax, pairForm, optA, run, step, hR.raw, hl, ht, resolve_nil, isRawTag, rawElement, rawPre, startAssign, verifyParent,
+      RS.parentTag, RS.push, required, getAttr, hk, addExec, hR.cur0, hR.reg, bind, Except.bind, endElement, RS.pop,
+      RS.upd, hp, createSource, trim_nil, Data.isEmpty]
+  | some e =>
+    simp [saxC, rawSax, pairForm, optA, run, step, hR.raw, hl, ht, resolve_nil, isRawTag, rawElement, rawPre, startAssign, verifyParent,
+      RS.parentTag, RS.push, required, getAttr, hk, addExec, hR.cur0, hR.reg, bind, Except.bind, endElement, RS.pop,
+      RS.upd, hp, createSource, trim_nil, Data.isEmpty]
 
 end Rfsm.Reader
